@@ -1,7 +1,7 @@
 package main
 
 func init() {
-	for _, id := range []string{"C04", "C07", "C10", "C11", "C14", "C15", "C16", "C19", "C20"} {
+	for _, id := range []string{"C04", "C07", "C10", "C11", "C14", "C15", "C19", "C20"} {
 		notApplicable[id] = "not yet claimed: contracts for this property are still being written (see DESIGN.md); no check is registered"
 	}
 	notApplicable["C12"] = "command/response matching lives in goroutine, channel and timer interplay (onActiveEvent/onActiveRespondEvent/write); no sequential function contract within the verifier's subset carries the claim"
@@ -118,5 +118,24 @@ func init() {
 		Decided: "reply bodies (general response echoing serial and ID with result 0; authentication result 0 exactly when the code equals the phone number; registration response with serial, 0 and the phone as code; " +
 			"multimedia response echoing the multimedia ID), reply IDs and has-reply flags per type, and the serial counter (value used, then +1 modulo 2^16)",
 		Undecided: []string{"one reply per request, ordering and callbacks across reader/writer goroutines and channels", "defaultReplyEvent's dynamic dispatch through the Handler interface (the handler table is a map literal)"},
+	})
+}
+
+func init() {
+	registerProp(&PropDef{
+		ID:    "C16",
+		Title: "Attachment completion report lists exactly the missing byte ranges",
+		Roots: []string{
+			"attachment.(*Package).StatisticalMissSegments", "model.(*P0x9212).Encode", "model.(*P0x9212).Parse", "model.(*T0x1212).ReplyBody",
+		},
+		Decided: "StatisticalMissSegments for every file size and every set of received chunks inside the file (map offset->length, any count, overlapping allowed): nil exactly when CurrentSize == FileSize; " +
+			"otherwise every returned range has positive length, lies inside the file, ranges are strictly ascending and non-adjacent, and every byte below FileSize that no chunk covers is in a returned range (none omitted); " +
+			"the 0x9212 body carries the result flag (0 complete / 1 retransmit), the count and each (offset, length) pair big-endian at 4+n+8k; Parse reads them back from exactly those positions",
+		Undecided: []string{
+			"no returned range overlaps received data, and maximality (needs the converse link every-map-entry-is-a-sorted-segment through the map iteration and sort.Slice models)",
+			"standardJT808DataHandle.OnPackageProgressEvent, which looks the file up in a string-keyed map and stores the ranges in the reply (string-keyed maps are outside the engine's subset)",
+			"the socket-level sequence (ranges resent, next completion response says complete)",
+			"more than 255 missing ranges (count byte wraps; outside the property's stated domain)",
+		},
 	})
 }
